@@ -119,6 +119,13 @@ def r2(repo, run):
             continue
         allowed = {q for (q, r_) in EXEMPT if r_ == root}
         moved = None
+        if (top.qualname, root) not in EXEMPT and not allowed and w.root[0] == 'class' and root.split('.')[0] in ('cls', 'self', 'type(self)', 'kls', 'klass'):
+            # a class-level attribute written through a parameter that holds the class (code moved into a helper taking cls)
+            same_attr = {(q, r_) for (q, r_) in EXEMPT if r_.split('.')[-1] == root.split('.')[-1] and r_.split('.')[0] in repo.classes}
+            for q, r_ in sorted(same_attr):
+                if only_reached_from(repo, top.qualname, {q}):
+                    root = r_
+                    allowed = {q}
         if (top.qualname, root) not in EXEMPT and allowed and only_reached_from(repo, top.qualname, allowed):
             moved = sorted(allowed)[0]
         if w.kind.startswith('maybe-'):
